@@ -67,9 +67,32 @@ theorem rt_of_command (F : NumFmt) (d : Nat) (i i' : Instruction) (c : Command) 
 
 /-! ## qubits -/
 
+theorem keywordOrIdentifier_of_not_reserved (s : List Char) (h : isReservedWord s = false) :
+    keywordOrIdentifier s = .identifier s := by
+  simp only [isReservedWord, Bool.or_eq_false_iff, Option.isSome_eq_false_iff, Option.isNone_iff_eq_none] at h
+  obtain ⟨⟨⟨h1, h2⟩, h3⟩, h4⟩ := h
+  simp [keywordOrIdentifier, h1, h2, h3, h4]
+
+/-- the tokens of a qubit that is not a placeholder and not named like a keyword -/
+theorem qubitToks_ok (q : Qubit) (h : noPlaceholder q = true) :
+    qubitToks q = match q with
+      | .fixed n => [.integer n]
+      | .variable s => [identTok s]
+      | .placeholder _ => [] := by
+  cases q with
+  | fixed n => rfl
+  | placeholder k => simp [noPlaceholder] at h
+  | «variable» s =>
+    simp only [noPlaceholder, Bool.not_eq_true'] at h
+    simp [qubitToks, nameTok, identTok, keywordOrIdentifier_of_not_reserved _ h]
+
 theorem parseQubit_toks (q : Qubit) (h : noPlaceholder q = true) (rest : List Token) :
     parseQubit (qubitToks q ++ rest) = .ok q rest := by
-  cases q <;> simp_all [noPlaceholder, qubitToks, parseQubit, identTok]
+  rw [qubitToks_ok q h]
+  cases q with
+  | fixed n => simp [parseQubit]
+  | placeholder k => simp [noPlaceholder] at h
+  | «variable» s => simp [parseQubit, identTok]
 
 /-- a token that cannot start a qubit -/
 def notQubit : List Token → Bool
@@ -258,8 +281,17 @@ theorem parseMeasureName_toks (n : Option String) (q : Qubit) (r : List Token) :
     parseMeasureName (measureNameToks n ++ qubitToks q ++ r) = .ok n (qubitToks q ++ r) := by
   cases n with
   | none =>
-    cases q <;> simp [measureNameToks, parseMeasureName, Parser.bind, Parser.pure, opt, preceded, tok, qubitToks,
-      identTok, phName]
+    have hq : ∃ t r', qubitToks q = t :: r' ∧ t ≠ .bang := by
+      cases q with
+      | fixed n => exact ⟨_, _, rfl, by simp⟩
+      | placeholder k => exact ⟨_, _, rfl, by simp⟩
+      | «variable» s =>
+        refine ⟨nameTok s, [], rfl, ?_⟩
+        simp only [nameTok, keywordOrIdentifier]
+        repeat' split
+        all_goals first | simp | (rename_i k _; cases k <;> simp [KeywordToken.toToken])
+    obtain ⟨t, r', hq, hne⟩ := hq
+    simp [measureNameToks, parseMeasureName, Parser.bind, Parser.pure, opt, preceded, tok, hq, hne]
   | some n =>
     simp [measureNameToks, parseMeasureName, Parser.bind, Parser.pure, opt, preceded, tok, tokIdentifier, identTok]
 
